@@ -5,7 +5,7 @@ sys.path.insert(0, os.path.dirname(os.path.abspath(__file__)))
 from props import PROPS
 
 NOTE = ('Trusted: Coq 8.16.1 kernel (no axioms: every property theorem is "Closed under the global context"); the hand-written Gallina model, tied to /repo by the '
-        'correspondence check run on every invocation (extracted with ExtrOcamlBasic only, OCaml driver, Go harness on the public API plus read-only accessors in stack/verif_hooks.go, build tag verif); Go library functions are modelled, '
+        'correspondence check run on every invocation (extracted with ExtrOcamlBasic only, OCaml driver, Go harness on the public API plus read-only accessors in stack/verif_hooks.go, build tag verif); Go library functions are modelled (the regular expressions of the line grammar through a generic interpreter, Spec/Regex.v, on definitions generated from the Go sources and compared with regexp.FindSubmatchIndex on every run; the hand-written matchers are PROVED equal to it, C00_regex), '
         'not verified (DESIGN.md section 5).')
 
 CLAIMS = {
@@ -109,8 +109,8 @@ def main():
     m = {
         'version': 1,
         'setup_cmd': 'sh scripts/setup.sh',
-        'hooks': {'guard': 'verif', 'enable': 'go build -tags verif compiles /repo/stack/verif_hooks.go (read-only accessors: VerifStepper over scanningState.scan, VerifLess/Equal/Similar/Merge, VerifReadLines); the harness falls back to a public-API-only build when the file no longer compiles and reports the hooked ops (step, sigops, rlines) as unchecked',
-                  'baseline_off_cmd': 'cd /repo && GOFLAGS=-mod=mod go test -vet=off -count=1 ./...', 'source_commits': ['dee5a37', '27ca8ce'], 'add_only': True},
+        'hooks': {'guard': 'verif', 'enable': 'go build -tags verif compiles /repo/stack/verif_hooks.go (read-only accessors: VerifStepper over scanningState.scan, VerifLess/Equal/Similar/Merge, VerifReadLines, VerifFuncTypes, VerifRegexps); the harness falls back to a public-API-only build when the file no longer compiles and reports the hooked ops (step, sigops, rlines, ast, regex) as unchecked',
+                  'baseline_off_cmd': 'cd /repo && GOFLAGS=-mod=mod go test -vet=off -count=1 ./...', 'source_commits': ['dee5a37', '27ca8ce', 'd3d3f1d'], 'add_only': True},
         'engines': [
             {'name': 'coq-model', 'path': 'coq/', 'serves_properties': claimed, 'kind_free_text': 'hand-written Gallina model + theorems (Coq 8.16.1), property files under coq/theories/Properties'},
             {'name': 'correspondence', 'path': 'scripts/check.py', 'serves_properties': claimed,
